@@ -155,7 +155,16 @@ def run_seqof(ops, typed):
                     if got != model[0:2]:
                         return rec('slice read differs', history=hist, container='SequenceOf')
             elif k == 'slice-set':
-                pass
+                # python list semantics, also when the new items are fewer or more than the span they replace
+                n_ = len(model or [])
+                lo = a % (n_ + 2)
+                sl = (slice(lo, lo + b % 3), slice(lo, None), slice(None, lo), slice(-(b % 3) - 1, None),
+                      slice(None, None))[(a + b) % 5]
+                items = [a, b, a + b][:(a * 7 + b) % 4]
+                expect = list(model or [])
+                expect[sl] = items
+                obj[sl] = [mk(x) for x in items]
+                model = expect
             elif k == 'bad-get':
                 n = len(model or [])
                 try:
@@ -320,9 +329,21 @@ def run_choice(ops):
             if k in ('append', 'setitem', 'extend'):
                 obj[name] = val
                 model = (name, val)
-            elif k in ('setcomp', 'sort'):
+            elif k == 'setcomp':
                 obj.setComponentByPosition(b % 3, val)
                 model = (name, val)
+            elif k == 'sort':
+                # the same alternative addressed from the end, as a python list index
+                obj.setComponentByPosition(b % 3 - 3, val)
+                model = (name, val)
+            elif k == 'reverse':
+                # a position before the first alternative: refused, nothing changes
+                try:
+                    obj.setComponentByPosition(-4 - b % 3, val)
+                except LOOKUP + (error.PyAsn1Error,):
+                    pass
+                else:
+                    return rec('position %d of a three-way CHOICE accepted' % (-4 - b % 3), history=hist, container='Choice')
             elif k == 'clear':
                 obj.clear()
                 model = None
